@@ -123,7 +123,8 @@ class PDUItem:
         """
         for (offset, length), attr_name, func, args in self._decoders:
             # Allow us to use None as a `length`
-            if length:
+            # A length of 0 is an empty field, only None means "to the end"
+            if length is not None:
                 sl = slice(offset, offset + length)
             else:
                 sl = slice(offset, None)
